@@ -121,7 +121,11 @@ type c08MapCase struct {
 }
 
 func c08MapGen(rng *rand.Rand, i int) c08MapCase {
-	s := c08Input(rng, 9)
+	maxp := 9
+	if i%10 == 7 {
+		maxp = 40 // long tables: deeper binary search in byteIndex
+	}
+	s := c08Input(rng, maxp)
 	cs := c08MapCase{Hex: hex.EncodeToString([]byte(s))}
 	n := utf8.RuneCountInString(s)
 	if i%5 == 4 {
@@ -1156,30 +1160,32 @@ func init() {
 		h := func(b []byte) string { return hex.EncodeToString(b) }
 		core.RunLeg(c, core.Leg[c08MapCase]{
 			Name: "M", Kind: "correspondence+oracle",
-			Rule: "random strings of up to 9 pieces drawn from ASCII, 2/3/4-byte runes, literal U+FFFD and invalid sequences (lone continuation/lead bytes, truncated 3/4-byte forms, an encoded surrogate, an overlong form, a value above U+10FFFF); 1/8 pure ASCII (nil tables), 1/8 ASCII with one wide/invalid piece last; every 5th case a rune slice with surrogates, negative and too-large values for the rune entry point; up to 3 rune spans per string. Observed through the API: stringByteOffsets (ByteRange of the empty matches), stringByteMapper (FindAllStringIndex), bytesToRunesAndOffsets (compat.FindAllIndex), readRunes (compat.FindReaderSubmatchIndex), runeByteOffsets (ByteRange on rune input), the byte→rune start lookup at every byte index (FindStringMatchStartingAt, Replace) — all compared with a recomputation with unicode/utf8 (oracle) and with the Lean model's tables (correspondence). non-trivial = has a multi-byte rune, an invalid byte or a rune-slice input; distinct by input",
+			Rule: "random strings of up to 9 pieces (every 10th case up to 40) drawn from ASCII, 2/3/4-byte runes, literal U+FFFD and invalid sequences (lone continuation/lead bytes, truncated 3/4-byte forms, an encoded surrogate, an overlong form, a value above U+10FFFF); 1/8 pure ASCII (nil tables), 1/8 ASCII with one wide/invalid piece last; every 5th case a rune slice with surrogates, negative and too-large values for the rune entry point; up to 3 rune spans per string. Observed through the API: stringByteOffsets (ByteRange of the empty matches), stringByteMapper (FindAllStringIndex), bytesToRunesAndOffsets (compat.FindAllIndex), readRunes (compat.FindReaderSubmatchIndex), runeByteOffsets (ByteRange on rune input), the byte→rune start lookup at every byte index (FindStringMatchStartingAt, Replace) — all compared with a recomputation with unicode/utf8 (oracle) and with the Lean model's tables (correspondence). non-trivial = has a multi-byte rune, an invalid byte or a rune-slice input; distinct by input",
 			Corpus: []c08MapCase{
 				{Hex: h([]byte("a\xc3\xa9\xff\xe2\x82\xac\xef\xbf\xbd\xf0\x9f\x98\x80\x80z")), Spans: [][2]int{{2, 4}, {0, 8}, {8, 0}}},
 				{Hex: h([]byte("ab\xff"))}, {Hex: h([]byte("abc"))}, {Hex: ""}, {Hex: h([]byte("\xed\xa0\x80"))},
 				{Hex: h([]byte("xy")), Runes: []int32{0xD800, -1, 'a', 0x110000, 0x1F600}},
 			},
-			N: c.N(1500, 60000), Gen: c08MapGen, Check: c08MapCheck, Batch: 500,
+			N: c.N(4000, 150000), Gen: c08MapGen, Check: c08MapCheck, Batch: 500,
 		})
 		core.RunLeg(c, core.Leg[c08PatCase]{
 			Name: "P", Kind: "oracle",
-			Rule: "random pattern ASTs of depth 2-4 (literals incl. multi-byte and U+FFFD, classes, concatenation, alternation, unnamed and named captures, greedy/lazy quantifiers, look-ahead/look-behind, balancing groups (?<-a>…) (?<b-a>…), back-references, atomic groups, conditionals, anchors) under 6 option sets incl. RightToLeft × random inputs (as in leg M); all successive matches (≤ 40) through FindStringMatch/FindNextMatch and FindRunesMatch/FindNextMatch: bounds of every capture of every group, group 0 = the match, embedded capture = last capture, String()/Runes() = addressed slice, ByteRange() = recomputed UTF-8 span, no negative array entries and balancing=false after tidy, string and rune entry points agree; FindAllStringIndex, compat FindAllIndex / FindAllStringSubmatchIndex / FindReaderSubmatchIndex byte indexes = spans of the same matches. non-trivial = at least one match with a capture in a group > 0; distinct by (pattern, options, input)",
+			Rule: "random pattern ASTs of depth 2-4 (literals incl. multi-byte and U+FFFD, classes, concatenation, alternation, unnamed and named captures, greedy/lazy quantifiers, look-ahead/look-behind, balancing groups (?<-a>…) (?<b-a>…), back-references, atomic groups, conditionals, anchors) under 7 option sets incl. RightToLeft × random inputs (as in leg M); all successive matches (≤ 40) through FindStringMatch/FindNextMatch and FindRunesMatch/FindNextMatch: bounds of every capture of every group, group 0 = the match, embedded capture = last capture, String()/Runes() = addressed slice, ByteRange() = recomputed UTF-8 span, no negative array entries and balancing=false after tidy, string and rune entry points agree; FindAllStringIndex, compat FindAllIndex / FindAllStringSubmatchIndex / FindReaderSubmatchIndex byte indexes = spans of the same matches. non-trivial = at least one match with a capture in a group > 0; distinct by (pattern, options, input)",
 			Corpus: []c08PatCase{
 				{Pattern: `(?<a>x)(?<b-a>y)`, Hex: h([]byte("€xy"))},
 				{Pattern: `(?<=(?<a>\w)+)(?<b>.)`, Hex: h([]byte("aé\xffb"))},
 				{Pattern: `(?:(?<a>\()|(?<-a>\))|[^()])+(?(a)(?!))`, Hex: h([]byte("(é(x))"))},
 				{Pattern: `(?=.*(?<a>x))(?<b-a>y)`, Hex: h([]byte("y.x"))},
+				// known finding: the ill-formed capture (2,-1) of group b is then read by the back-reference
+				{Pattern: `(?=.*(?<a>x))(?<b-a>y)\k<b>`, Hex: h([]byte("y.x"))},
 			},
-			N: c.N(5000, 250000), Gen: c08PatGenCase, Check: c08PatCheck, Batch: 1000,
+			N: c.N(20000, 1000000), Gen: c08PatGenCase, Check: c08PatCheck, Batch: 1000,
 		})
 		core.RunLeg(c, core.Leg[c08ProgCase]{
 			Name: "B", Kind: "correspondence+oracle",
 			Rule: "straight-line capture programs: \\A followed by up to 9 constructs over an input of x's — (?<g>x), empty and two-character captures, (?<-g>x), (?<h-g>…) with content of 0-2 characters, captures and balancing groups inside look-ahead (distance 0-2) and look-behind (right-to-left Capture), fixed loops of captures, and branches / negative look-aheads that capture and then fail (nested ≤ 2) — so that the sequence of Capture / transferCapture / uncapture calls is known by construction (balancing only on a live well-formed capture). The real interpreter runs the pattern; counts, live array prefixes after tidy, group 0 and Groups() (VerifMatchArrays, Groups) are compared with the Lean builder model run on the call sequence, the model's abstract view with the generator's push/cancel stacks, and Groups() with those stacks (oracle). Every 16th case admits transfers whose interval comes out with negative length. non-trivial = has a balance or an uncapture; distinct by pattern",
 			Corpus: []c08ProgCase{},
-			N:      c.N(3000, 120000), Gen: c08ProgGen, Check: c08ProgCheck, Batch: 1000,
+			N:      c.N(10000, 400000), Gen: c08ProgGen, Check: c08ProgCheck, Batch: 1000,
 		})
 	})
 }
